@@ -2,7 +2,7 @@
 # mutant_prio.sh ID:name ...  (private worktree /tmp/wt_mut; appends to mutants/RESULTS.txt)
 export VERIF_REPO=/tmp/wt_mut VERIF_BUILD=/tmp/wtb_mut VERIF_WORK=/tmp/wtw_mut
 cd /verif
-while pgrep -f "tools/run_mutant.sh" > /dev/null; do sleep 20; done
+
 git -C $VERIF_REPO checkout -q -- .
 for pair in "$@"; do
   id=${pair%%:*}; name=${pair##*:}; m=mutants/$id/$name.diff
